@@ -105,7 +105,8 @@ class Ctx:
             self.solver.add(cond if ent[2] else z3.Not(cond))
             return ent[2]
         rt = self.check(cond)
-        rf = self.check(z3.Not(cond))
+        # the path condition itself is satisfiable (invariant of the search), so cond infeasible => not cond feasible
+        rf = z3.sat if rt == z3.unsat else self.check(z3.Not(cond))
         if rt == z3.unknown or rf == z3.unknown:
             raise Inconclusive('solver returned unknown on a branch condition')
         t_ok, f_ok = rt == z3.sat, rf == z3.sat
@@ -116,7 +117,9 @@ class Ctx:
         elif f_ok:
             ent = ['B', h, False, False]
         else:
-            raise Abort()
+            # the path condition is satisfiable by construction (assume() checks for itself), so this can only mean
+            # that a replayed prefix was applied to different conditions: the harness is not deterministic
+            raise Inconclusive('path condition became unsatisfiable: replay diverged')
         self.new_decisions += 1
         self.pos += 1
         self.trail.append(ent)
@@ -147,7 +150,7 @@ class Ctx:
             if r == z3.unknown:
                 raise Inconclusive('solver returned unknown while realising')
             if r == z3.unsat:
-                raise Abort()
+                raise Inconclusive('no value left for a realisation that had one: replay diverged')
             v = self.model().eval(expr, model_completion=True)
             r2 = self.check(expr != v)
             if r2 == z3.unknown:
@@ -165,15 +168,20 @@ class Ctx:
         m = self.model()
         out = {}
         for name, (kind, e) in self.vars.items():
+            if kind == 'fp':
+                v = m.eval(z3.fpToIEEEBV(e), model_completion=True)
+                out[name] = v.as_long()          # IEEE-754 bit pattern of the double
+                continue
             v = m.eval(e, model_completion=True)
             out[name] = v.as_signed_long() if kind == 'wint' and z3.is_bv_value(v) else _pyval(v)
         return m, out
 
 
 def _fingerprint(e):
-    # identity of a decision point across re-executions: text of the expression as the code built it
-    t = e.sexpr()
-    return hash(t) if len(t) > 200 else t
+    # identity of a decision point across re-executions.  The expression text is not usable (simplification orders
+    # commutative arguments by AST id, which changes between re-executions), so only the sort is compared here; a
+    # diverged replay is caught semantically: a replayed prefix must stay satisfiable (see decide / realize).
+    return e.sort().name()
 
 
 def _pyval(v):
@@ -779,6 +787,15 @@ class SymV:
         self.c.add(z3.And(e >= lo, e <= hi))      # signed comparisons
         return SymBV(e, True)
 
+    def fp(self, name, finite=True):
+        """IEEE double (z3 Float64); model values are kept as 64-bit patterns"""
+        from .cysym import SymFP, F64
+        e = z3.FP(name, F64)
+        self._reg(name, 'fp', e)
+        if finite:
+            self.c.add(z3.Not(z3.Or(z3.fpIsNaN(e), z3.fpIsInf(e))))
+        return SymFP(e)
+
     def fresh_real(self, prefix='rnd', lo=None, hi=None):
         self.c.fresh += 1
         return self.real(f'{prefix}{self.c.fresh}', lo, hi)
@@ -789,11 +806,18 @@ class SymV:
                 raise Abort()
             return
         self.c.add(_b(cond))
-        if self.c.check() != z3.sat:
+        self._feasible()
+
+    def _feasible(self):
+        r = self.c.check()
+        if r == z3.unknown:
+            raise Inconclusive('solver returned unknown on an assumption')
+        if r != z3.sat:
             raise Abort()
 
     def distinct(self, *xs):
         self.c.add(z3.Distinct(*[x.e for x in xs]))
+        self._feasible()
 
     def sym_const(self, v):
         return v
@@ -834,8 +858,7 @@ class SymV:
         if neg is None:
             raise Abort()       # concrete failure: nothing more to learn on this path
         self.c.add(_b(cond))  # go on under the assertion, to find independent failures
-        if self.c.check() != z3.sat:
-            raise Abort()
+        self._feasible()
         return False
 
     def fail(self, label, info=None):
@@ -891,6 +914,10 @@ class ConcreteV:
         v = self.model.get(name)
         return int(lo if v is None else v)
 
+    def fp(self, name, finite=True):
+        import struct
+        return struct.unpack('<d', int(self.model.get(name, 0)).to_bytes(8, 'little'))[0]
+
     def fresh_real(self, prefix='rnd', lo=None, hi=None):
         self.fresh += 1
         return self.real(f'{prefix}{self.fresh}', lo, hi)
@@ -932,8 +959,19 @@ def _jsonable(x):
 
 def eval_under(model, v):
     """value of a proxy / python value under a z3 model, as plain python"""
+    if isinstance(v, SymBV) and v.signed:
+        return model.eval(v.e, model_completion=True).as_signed_long()
     if isinstance(v, (SymInt, SymBV, SymBool, SymReal)):
         return _pyval(model.eval(v.e, model_completion=True))
+    if type(v).__name__ == 'SymFP':
+        import struct
+        bits = model.eval(z3.fpToIEEEBV(v.e), model_completion=True).as_long()
+        return repr(struct.unpack('<d', bits.to_bytes(8, 'little'))[0])
+    if type(v).__name__ == 'CVal':
+        if not v.sym:
+            return v.v
+        r = model.eval(v.v, model_completion=True)
+        return r.as_signed_long() if v.t in ('char', 'short', 'int', 'bint', 'long long', 'Py_ssize_t') else r.as_long()
     if isinstance(v, Fraction):
         return f'{v.numerator}/{v.denominator}'
     if isinstance(v, (list, tuple)):
@@ -946,6 +984,10 @@ def eval_under(model, v):
 
 
 def plain(v):
+    if isinstance(v, float):
+        return repr(v)
+    if type(v).__name__ == 'CVal':
+        return v.v
     if isinstance(v, Fraction):
         return f'{v.numerator}/{v.denominator}'
     if isinstance(v, (list, tuple)):
